@@ -1087,6 +1087,18 @@ class ExperimentInstanceDirectory(StorageStructurePathResolver):
                             self.log.warning('Unable to unlink and recreate output dir (%s) Continuing anyway.' % error)
                     else:
                         self.log.warning('Output path %s is a broken symlink - will not fix' % self.outputDir)
+            elif not os.path.lexists(self.outputDir):
+                # VV: consolidate() removes the `output` link and then renames `output-local` to `output`. If it was
+                #     interrupted between the two steps the instance has no `output` at all: complete the rename
+                local_output = os.path.join(self.location, 'output-local')
+                if os.path.isdir(local_output) and self.attempt_shadowdir_repair:
+                    self.log.warning('Output path %s is missing but %s exists - completing an interrupted '
+                                     'consolidation' % (self.outputDir, local_output))
+                    try:
+                        os.rename(local_output, self.outputDir)
+                    except OSError as error:
+                        self.log.warning('Unable to rename %s to %s (%s) Continuing anyway.' % (
+                            local_output, self.outputDir, error))
 
         #It may be necessary to mirror the directory structure on a remote machine
         #Some transfer/mirroring mechanisms only transfer directories containing data.
